@@ -107,6 +107,7 @@ type Specs struct {
 	Guards    []GuardDecl
 	FnFields  map[string]*Contract // key pkgpath.Struct.field
 	Inlines   map[string]bool      // key pkgpath.Func
+	Axioms    []Clause             // spec-level assumptions about ghost functions
 	Regions   map[string][]string  // region name -> state-key glob patterns
 	RegionOrd []string
 	Errors    []string
@@ -154,7 +155,7 @@ func (s *Specs) LoadContractFile(path, pkgPath string, isGo bool) {
 			first = t[:j]
 		}
 		switch first {
-		case "unit", "requires", "ensures", "assigns", "loop", "ghost", "at", "trusted", "inline", "extern", "pred", "ghostfn", "package", "guarded_by", "holds", "acquires", "props", "why", "fnfield", "ghostvar", "region", "assert":
+		case "unit", "requires", "ensures", "assigns", "loop", "ghost", "at", "trusted", "inline", "extern", "pred", "ghostfn", "package", "guarded_by", "holds", "acquires", "props", "why", "fnfield", "ghostvar", "region", "assert", "axiom":
 			logical = append(logical, ll{t, i + 1})
 		default:
 			if len(logical) == 0 {
@@ -455,6 +456,13 @@ func (s *Specs) LoadContractFile(path, pkgPath string, isGo bool) {
 					s.Regions[name] = append(s.Regions[name], pat)
 				}
 			}
+		case "axiom":
+			e, err := ParseExpr(rest)
+			if err != nil {
+				errf(l.n, "%v", err)
+				continue
+			}
+			s.Axioms = append(s.Axioms, Clause{Label: label, Text: rest, E: e, Src: src})
 		case "ghostvar":
 			f := strings.Fields(rest)
 			if len(f) != 2 {
